@@ -188,6 +188,26 @@ def type_invariants(tb):
             if hs is not None:
                 out.append(("cmp", "Ge", ("len", sl), ("c", hs)))
             out.append(("cmp", "Eq", ("bin", "Rem", ("len", sl), ("c", 8), "usize"), ("c", 0)))
+        # I-BI / I-MH: a BootInformation / Multiboot2Header only exists as the success result of `load` (who-constructs premise of
+        # C02 / C10), whose memory exit precedes it: the slice of the *declared* size passed BytesRef::try_from (C02/C10 A2),
+        # which rejects len < size_of::<Header>() first (C14.B1).  Hence declared size >= header size for every loaded structure.
+        if info.get("kind") == "ref":
+            tgt = info.get("pointee") or ""
+            for (wrap, hdr_ty, fname, minimum) in (("multiboot2::boot_information::BootInformation<", "multiboot2::boot_information::BootInformationHeader", "total_size", 8),
+                                                    ("multiboot2_header::header::Multiboot2Header<", "multiboot2_header::header::Multiboot2BasicHeader", "length", 16)):
+                if tgt.startswith(wrap):
+                    wa = F.adts.get(tgt) or next((a for k_, a in F.adts.items() if k_.startswith(wrap)), None)
+                    ha = F.adts.get(hdr_ty)
+                    ds = F.adts.get("multiboot2_common::DynSizedStructure<%s>" % hdr_ty)
+                    if wa and ha and ds and wa.get("fields") and ds.get("fields"):
+                        f0 = wa["fields"][0]
+                        hf = [f for f in ds["fields"] if f["name"] == "header"]
+                        sf = [f for f in ha["fields"] if f["name"] == fname]
+                        if hf and sf:
+                            inner = ("fld", ("deref", ("arg", i, ty)), f0["i"], f0["name"], f0["ty"])
+                            hdr = ("fld", ("deref", inner), hf[0]["i"], "header", hf[0]["ty"])
+                            size = ("fld", hdr, sf[0]["i"], fname, sf[0]["ty"])
+                            out.append(("cmp", "Ge", ("zext", size, "u32", "usize"), ("c", minimum)))
         # counter invariants of private iterator structs (invariants.py): self.a <= self.b
         if info.get("kind") in ("ref", "ptr") and not _IN_INVARIANTS[0]:
             from . import invariants as INV
@@ -366,6 +386,10 @@ def lin(t):
             return Lin(0, {("divv", strip(t[2]), strip(t[3])): 1})
     if k == "un" and t[1] == "Not" and t[2][0] == "c":
         return Lin((~t[2][1]) & ((1 << 64) - 1))
+    if k == "call" and len(t[2]) == 1 and cn(t[1]) == "multiboot2_common::increase_to_alignment":
+        # the repository's rounding function, when it is not a single expression that the term builder can look into:
+        # its meaning (least multiple of 8 >= x) is premise B6 of C14 / T2 of C03, decided there for whatever body it has
+        return lin(("numfn", "next_multiple_of", (t[2][0], ("c", 8)), "usize"))
     if k == "numfn" and t[1] == "next_multiple_of" and len(t[2]) == 2 and t[2][1][0] == "c" and t[2][1][1] > 0:
         # x.next_multiple_of(c) = (x + c-1) - (x + c-1) mod c   (mathematical integers; overflow is an ARITH matter)
         c = t[2][1][1]
@@ -569,6 +593,19 @@ def entails(facts, need):
             if j is not None:
                 return j
         return None
+    if need[0] == "cmp" and need[1] in ("Lt", "Gt"):
+        # a < b  from  a <= b  and  a != b  (e.g. `if a == b {return}  if a > b {panic}`)
+        a, b = (need[2], need[3]) if need[1] == "Lt" else (need[3], need[2])
+        try:
+            dk = lin(a).add(lin(b), -1).key()
+            ne_i = [i for i, f in enumerate(facts) if f[0] == "cmp" and f[1] == "Ne" and lin(f[2]).add(lin(f[3]), -1).key() in
+                    (dk, lin(b).add(lin(a), -1).key())]
+        except Exception:
+            ne_i = []
+        if ne_i:
+            j = entails([f for f in facts if not (f[0] == "cmp" and f[1] == "Ne")], ("cmp", "Le", a, b))
+            if j is not None:
+                return ("le+ne", ne_i[:1])
     fes = []
     idx = []
     for i, f in enumerate(facts):
